@@ -12,7 +12,7 @@ from sa.term import Rat
 from sa.units import Unit
 from spec.formulas import S, m_n
 
-from .common import eq_term, events, returns, show, term_of
+from .common import eq_term, events, history_free, returns, show, term_of
 
 CASES = {
     # kernel: (given energy, leg of the fixed energy, other leg, sign: +1 => Efixed - E(other))
@@ -105,6 +105,9 @@ def run(tier: str) -> Run:
                 probs.append({'dtypes': d, 'raises': [o.exc_type + ' ' + (o.where or '') for o in o2 if o.kind == 'raise']})
         r4.check(unit_ok and dt_ok and not probs, name, loc(fi),
                  {'result_unit': repr(out.value.unit), 'problems': probs[:3]}, key=name)
+
+    r6 = run.rule('R6', 'kernels write to no module-level state and hand out no memoised object', 2)
+    history_free(repo, [repo.func('conversion.tof', n) for n in CASES], r6)
 
     # R5 graph factories
     for fac, kern in (('direct_inelastic', 'energy_transfer_direct_from_tof'),
